@@ -178,6 +178,11 @@ def gen_net(rng):
             else:
                 a, c = rng.sample(b, 2)
                 pp.create_line_from_parameters(net, a, c, 0.5, 0.25, 0.125, 0, 0.5, index=i, name=nm)
+    # tables without an in_service column that can be group members
+    li = int(net.line.index[0])
+    pp.create_switch(net, int(net.line.from_bus.at[li]), li, et="l", index=rng.randrange(20))
+    pp.create_switch(net, b[0], b[1], et="b", index=20 + rng.randrange(5))
+    pp.create_measurement(net, "v", "bus", 1.0, 0.01, b[0], index=rng.randrange(20))
     return net
 
 
@@ -238,6 +243,10 @@ def classify(op, st0, g, e, what=""):
     return None
 
 
+def rng_pick(ctx, l):
+    return l[ctx.rng.randrange(len(l))]
+
+
 def _step(ctx, cases, net, sm, op):
     st0 = observe(net)
     work = copy.deepcopy(net)
@@ -268,25 +277,48 @@ def _step(ctx, cases, net, sm, op):
                 bad.append((g, e, "members %s, abstract set %s" % (got, want)))
             elif has_row and not want:
                 bad.append((g, e, "a net.group row with no members remains"))
-    # in/out of service act on exactly the members
+    # in/out of service act on exactly the members: (a) the group as it is, (b) the same members regrouped together with
+    # switch and measurement rows (tables without in_service column) in a random row order
     if exc is None and not bad and gids and len(work.group):
-        g = gids[0]
+        g = rng_pick(ctx, gids)
         if g in work.group.index:
-            w2 = copy.deepcopy(work)
-            before = {e: w2[e].in_service.copy() for e in ETS}
-            try:
-                set_group_out_of_service(w2, g)
-                for e in ETS:
-                    ms = sm1.m.get((g, e), set())
-                    for i in w2[e].index:
-                        exp = False if i in ms else bool(before[e].at[i])
-                        if bool(w2[e].in_service.at[i]) != exp:
-                            bad.append((g, e, "set_group_out_of_service changed/kept in_service of %s %d wrongly" % (e, i)))
-            except Exception as ex:
-                missing = [(e, i) for e in ETS for i in sm1.m.get((g, e), set()) if i not in work[e].index]
-                bad.append((g, missing[0][0] if missing else ETS[0],
-                            "set_group_out_of_service raises %s%s" % (type(ex).__name__,
-                                                                     " (member %s %d does not exist)" % missing[0] if missing else "")))
+            for variant in ("as_is", "regrouped"):
+                w2 = copy.deepcopy(work)
+                ms_all = {e: set(sm1.m.get((g, e), set())) for e in ETS}
+                tgt = g
+                if variant == "regrouped":
+                    ets = [e for e in ETS if ms_all[e]]
+                    parts = [(e, sorted(ms_all[e])) for e in ets]
+                    if len(w2.switch):
+                        parts.append(("switch", [int(w2.switch.index[0])]))
+                    if len(w2.measurement):
+                        parts.append(("measurement", [int(w2.measurement.index[0])]))
+                    ctx.rng.shuffle(parts)
+                    if not parts:
+                        continue
+                    try:
+                        tgt = pp.create_group(w2, [p_[0] for p_ in parts], [p_[1] for p_ in parts], name="oracle_regrouped")
+                    except Exception:
+                        continue                      # e.g. a member that does not exist: not the subject here
+                    ctx.count("inservice_oracle_order:" + ",".join(p_[0][:2] for p_ in parts))
+                before = {e: w2[e].in_service.copy() for e in ETS}
+                try:
+                    set_group_out_of_service(w2, tgt)
+                    for e in ETS:
+                        for i in w2[e].index:
+                            exp = False if i in ms_all[e] else bool(before[e].at[i])
+                            if bool(w2[e].in_service.at[i]) != exp:
+                                bad.append((g, e, "set_group_out_of_service (%s) changed/kept in_service of %s %d wrongly" % (variant, e, i)))
+                    set_group_in_service(w2, tgt)
+                    for e in ETS:
+                        for i in w2[e].index:
+                            exp = True if i in ms_all[e] else bool(before[e].at[i])
+                            if bool(w2[e].in_service.at[i]) != exp:
+                                bad.append((g, e, "set_group_in_service (%s) changed/kept in_service of %s %d wrongly" % (variant, e, i)))
+                except Exception as ex:
+                    bad.append((g, ETS[0], "set_group_out/in_service (%s) raises %s" % (variant, type(ex).__name__)))
+                if bad:
+                    break
     case = {"op": op, "before": st0, "exc": exc, "after": st1, "members": mem, "gids": gids, "bad": bad}
     cases.append(case)
     ctx.count("op:" + op[0])
